@@ -75,7 +75,9 @@ def havoc(ex, sv, name):
             return V(VBool(fresh(name, vl.Bool)))
         return V(fresh(name, Val))
     if isinstance(sv, SSet):
-        return SSet(fresh(name, SetVal))
+        import itertools
+        f = z3.Function('set_%s!%d' % (name, fresh('u', vl.Int).get_id()), Val, vl.Bool)
+        return SSet(pred=lambda k, f=f: f(k))
     if isinstance(sv, SDict):
         valsort = vl.MapSet if sv.vkind == 'set' else vl.MapVal
         return SDict(fresh(name + '_dom', SetVal), fresh(name + '_val', valsort),
